@@ -1,7 +1,6 @@
 package main
 
 import (
-	"strings"
 	"bufio"
 	"encoding/json"
 	"fmt"
@@ -9,6 +8,7 @@ import (
 	"os/exec"
 	"path/filepath"
 	"sort"
+	"strings"
 )
 
 // selftest proves determinism: every run seed of every property is executed in separate
